@@ -81,7 +81,7 @@ impl Property for C10 {
         }
     }
     fn rule(&self) -> &'static str {
-        "three of four cases: a generated parametric instance (a valid instance over variables and 0-3 parameter ids that occur at any degree in the objective and active constraints; removed constraints, hints, dependencies over variables only) and a parameter assignment that is complete / complete with extra ids colliding with nothing / missing one declared id; with_parameters is observed: Err iff a declared id is missing, else objective and every active constraint compared coefficient by coefficient with the exact partial substitution (which covers every state x), variables, sense, constraint ids/equality/metadata, removed constraints, hints, dependencies unchanged, supplied values recorded; plus evaluate at one state. One of four cases: Instance -> ParametricInstance -> with_parameters({}) must give canonically equal objective/constraints and equal everything else. Non-trivial = a parameter occurs in some function; distinct = fingerprint of (parametric instance, assignment)."
+        "three of four cases: a generated parametric instance (a valid instance over variables and 0-3 parameter ids that occur at any degree in the objective and active constraints; removed constraints, hints, dependencies over variables only) and a parameter assignment that is complete / complete with extra ids colliding with nothing / missing one declared id; with_parameters is observed: Err iff a declared id is missing, else objective and every active constraint compared coefficient by coefficient with the exact partial substitution (which covers every state x), variables, sense, constraint ids/equality/metadata, removed constraints, hints, dependencies unchanged, supplied values recorded; plus evaluate at one state. In a third of the successful cases the result is converted back and instantiated again with no parameters and must not change. One of four cases: Instance (half of them recording parameter values of an earlier instantiation) -> ParametricInstance -> with_parameters({}) must give canonically equal objective/constraints and equal everything else. Non-trivial = a parameter occurs in some function; distinct = fingerprint of (parametric instance, assignment)."
     }
     fn assumptions(&self) -> Vec<&'static str> {
         vec![
@@ -278,6 +278,34 @@ impl Property for C10 {
             }
             None => mon.violation("C10.parameters-not-recorded", format!("result.parameters is None\n{}", ctx())),
         }
+        // the instantiated instance (which records the supplied values) converts back and instantiates
+        // again with no parameters, unchanged
+        if rng.chance(1, 3) {
+            mon.facet("second-stage:instantiated->parametric->with_parameters({})");
+            mon.eval();
+            let start = out.clone();
+            match probe(move || v1::ParametricInstance::from(start).with_parameters(v1::Parameters::default()).map_err(|e| format!("{e:#}"))) {
+                Err(p) => mon.violation(format!("C10.panic:{}", panic_site(&p)), format!("second conversion panicked: {} at {}
+{}", p.message, p.location, ctx())),
+                Ok(Err(e)) => mon.violation("C10.conversion-error:already-instantiated", format!("instantiated instance -> ParametricInstance -> with_parameters({{}}) failed: {e}
+first result={out:?}
+{}", ctx())),
+                Ok(Ok(again)) => {
+                    let none = BTreeMap::new();
+                    let mut same = compare_instantiated(&opt_fn(&out.objective), &opt_fn(&again.objective), &none).is_none() && again.constraints.len() == out.constraints.len();
+                    if same {
+                        for (a, b) in out.constraints.iter().zip(again.constraints.iter()) {
+                            same &= constraint_core(a) == constraint_core(b) && compare_instantiated(&opt_fn(&a.function), &opt_fn(&b.function), &none).is_none();
+                        }
+                    }
+                    if !same || again.decision_variables != out.decision_variables || again.sense != out.sense || again.removed_constraints != out.removed_constraints {
+                        mon.violation("C10.conversion:already-instantiated-changed", format!("second result={again:?}
+first result={out:?}
+{}", ctx()));
+                    }
+                }
+            }
+        }
         // one state through the API
         if regime == Regime::D && out.decision_variable_dependency.is_empty() {
             let x = sorted_state(&gen_state_in_bounds(rng, &inst, None, Regime::D));
@@ -306,8 +334,14 @@ impl Property for C10 {
 }
 
 impl C10 {
-    fn conversion_case(&self, _rng: &mut Rng, inst: v1::Instance, mon: &mut Monitor) {
+    fn conversion_case(&self, rng: &mut Rng, mut inst: v1::Instance, mon: &mut Monitor) {
         mon.facet("conversion-round-trip");
+        // half of the instances record parameter values of an earlier instantiation
+        if rng.bool() {
+            let ids: Vec<u64> = (0..1 + rng.below(3)).map(|j| 7000 + 3 * j + rng.below(3)).collect();
+            inst.parameters = Some(parameters(ids.into_iter().map(|i| (i, 1.5))));
+            mon.facet("conversion-round-trip:instance-records-earlier-parameters");
+        }
         mon.eval();
         let mut fp = Fp::new();
         fp.u64(fp_msg(&inst)).str("conversion");
